@@ -26,6 +26,7 @@ type C14Case struct {
 	Procs    int     `json:"procs"`
 	Seed     uint64  `json:"seed"`
 	DrawMain bool    `json:"drawmain,omitempty"`
+	Late     int     `json:"late,omitempty"` // a goroutine that registers this many cleanups while the cleanups of the test case are running
 }
 
 type c14 struct{}
@@ -64,6 +65,9 @@ func (c14) Gen(dt *drv.T, c *Ctx) any {
 	cs.Procs = pick(dt, "procs", 2, 4, 16)
 	cs.Seed = drv.Uint64Range(1, 1<<40).Draw(dt, "seed")
 	cs.DrawMain = drv.Bool().Draw(dt, "drawmain")
+	if chance(dt, "late", 35) {
+		cs.Late = drv.IntRange(1, 40).Draw(dt, "nlate")
+	}
 	return cs
 }
 
@@ -170,10 +174,27 @@ func (c14) Run(c *Ctx, csAny any) Outcome {
 		if n := len(invs); n > 0 && viol == nil {
 			viol = invs[n-1].validate()
 		}
-		iv := &c14Inv{runs: make([]int32, total+1), ctxs: make([][]context.Context, len(cs.Gs)+1), live: make([][]bool, len(cs.Gs)+1)}
+		iv := &c14Inv{runs: make([]int32, total+cs.Late+4), ctxs: make([][]context.Context, len(cs.Gs)+1), live: make([][]bool, len(cs.Gs)+1)}
 		invs = append(invs, iv)
 		if cs.DrawMain {
 			intGen.Draw(t, "x")
+		}
+		var released, lateDone chan struct{}
+		if cs.Late > 0 {
+			// registered first, so it runs last: waits for the late registrar, whose cleanups then still have to run
+			released, lateDone = make(chan struct{}), make(chan struct{})
+			t.Cleanup(func() { <-lateDone })
+			go func() {
+				defer close(lateDone)
+				<-released // the cleanups of this test case have started to run
+				for i := 0; i < cs.Late; i++ {
+					id := atomic.AddInt32(&iv.registered, 1) - 1
+					t.Cleanup(func() { atomic.AddInt32(&iv.runs[id], 1) })
+					if i%3 == 0 {
+						runtime.Gosched()
+					}
+				}
+			}()
 		}
 		start := make(chan struct{})
 		var wg sync.WaitGroup
@@ -188,6 +209,9 @@ func (c14) Run(c *Ctx, csAny any) Outcome {
 		close(start)
 		cs.exec(t, iv, len(cs.Gs), cs.Main)
 		wg.Wait()
+		if cs.Late > 0 {
+			t.Cleanup(func() { close(released) }) // registered last: the first cleanup to run
+		}
 	}
 	obs := RunCheck(CheckCfg{Name: "TestC14", Seed: cs.Seed, Checks: cs.Checks, ShrinkNS: 0, NoFailFile: true, Verbose: cs.Verbose}, prop)
 	if n := len(invs); n > 0 && viol == nil {
@@ -200,6 +224,9 @@ func (c14) Run(c *Ctx, csAny any) Outcome {
 	}
 	if len(invs) > 1 {
 		out.Classes = append(out.Classes, "T-reused-or-replayed")
+	}
+	if cs.Late > 0 {
+		out.Classes = append(out.Classes, "cleanups-registered-while-cleaning-up")
 	}
 	if rep := rw.New(); rep != "" {
 		key, lib, sum := raceKey(rep)
